@@ -578,4 +578,37 @@ fn renderings(rep: &mut Report) {
         for (i, k) in kinds.iter().enumerate() { if k.to_string() != names[i] { rep.violation("Kind Display", "kind", names[i].into(), k.to_string()); } }
     }
     rep.sample("{null, string, object} -> \"null, string or object\"".into());
+    // the set algebra, executed (the Kani harnesses are the proof; this supplies the failing input): every
+    // operator form on all 64 x 64 pairs of sets and all set x kind / kind x kind pairs, read back through
+    // iteration, against the bit semantics
+    rep.checks.push("C20: | & |= &= in every operand combination (set/set, set/kind, kind/set, kind/kind), len, is_empty for all 64 x 64 sets x 6 kinds (exhaustive execution, read back through iter())".into());
+    let build = |bits: u32| -> KindSet { let mut s = KindSet::none(); for i in 0..6 { if bits & (1 << i) != 0 { s |= kinds[i]; } } s };
+    let mask = |s: KindSet| -> u32 { let mut m = 0u32; for k in s.iter() { m |= 1 << kinds.iter().position(|x| *x == k).unwrap(); } m };
+    let mut bad = |rep: &mut Report, what: String, got: u32, want: u32| { if got != want { rep.violation("KindSet operators agree with set semantics", "kindset-op", what, format!("got members {:06b} expected {:06b} (bit i = i-th kind of null, boolean, number, string, array, object)", got, want)); } };
+    for a in 0u32..64 {
+        let sa = build(a);
+        bad(rep, format!("iter() of the set built from bits {:06b}", a), mask(sa), a);
+        if sa.len() != a.count_ones() as usize || sa.is_empty() != (a == 0) { rep.violation("KindSet operators agree with set semantics", "kindset-op", format!("len/is_empty of {:06b}", a), format!("len {} is_empty {}", sa.len(), sa.is_empty())); }
+        for b in 0u32..64 {
+            let sb = build(b);
+            rep.eval(true, (a * 64 + b) as u64);
+            bad(rep, format!("{:06b} | {:06b}", a, b), mask(sa | sb), a | b);
+            bad(rep, format!("{:06b} & {:06b}", a, b), mask(sa & sb), a & b);
+            let mut t = sa; t |= sb; bad(rep, format!("{:06b} |= {:06b}", a, b), mask(t), a | b);
+            let mut t = sa; t &= sb; bad(rep, format!("{:06b} &= {:06b}", a, b), mask(t), a & b);
+        }
+        for (i, k) in kinds.iter().enumerate() {
+            let kb = 1u32 << i;
+            bad(rep, format!("{:06b} | {:?}", a, k), mask(sa | *k), a | kb);
+            bad(rep, format!("{:06b} & {:?}", a, k), mask(sa & *k), a & kb);
+            bad(rep, format!("{:?} | {:06b}", k, a), mask(*k | sa), a | kb);
+            bad(rep, format!("{:?} & {:06b}", k, a), mask(*k & sa), a & kb);
+            let mut t = sa; t |= *k; bad(rep, format!("{:06b} |= {:?}", a, k), mask(t), a | kb);
+            let mut t = sa; t &= *k; bad(rep, format!("{:06b} &= {:?}", a, k), mask(t), a & kb);
+        }
+    }
+    for (i, k1) in kinds.iter().enumerate() { for (j, k2) in kinds.iter().enumerate() {
+        bad(rep, format!("{:?} | {:?}", k1, k2), mask(*k1 | *k2), (1 << i) | (1 << j));
+        bad(rep, format!("{:?} & {:?}", k1, k2), mask(*k1 & *k2), (1 << i) & (1 << j));
+    } }
 }
